@@ -181,6 +181,10 @@ Fixpoint aagree_from (a : agent) (es : list aevent) (os : list aobs) : bool :=
               aagree_from a' es' os'
           | [] => false
           end
+      | ARestart ser del =>
+          (* the model's replay of the agent WAL predicts db.series and db.deleted after the reopen *)
+          list_eqb Z.eqb (sortz (a_series a')) (sortz ser) && list_eqb pair_eqb (sortk (a_deleted a')) (sortk del) &&
+          aagree_from a' es' os
       | _ => aagree_from a' es' os
       end
   end.
